@@ -202,12 +202,21 @@ func ansWord(resp commands.Response, err error) string {
 	return "xresp"
 }
 
+var c17qDeadlines bool
+
 func init() {
 	opTimeout["c17q"] = 120 * time.Second
 	// c17q <op>...   ca #d | sa #d | cr n | sr n | cc | sc | sq | sx | sf | cw | sw #d | sz #d | sk | cv #d <sent01> | ck
 	//   a real ClientDnsConnection that has not shaken hands (Close has no network part) and a real server-side connection made by a
 	//   real version request to a real listener; the two ends are not joined: data arrives at the client end by Append of the in-order
 	//   packet, at the server end by a real packet request
+	// c17qd: the same script with a write deadline (far in the future) set on both ends first: a parked Write then waits in the branch of
+	// the queue that also watches the deadline
+	register("c17qd", func(a []Tok) []Tok {
+		c17qDeadlines = true
+		defer func() { c17qDeadlines = false }()
+		return ops["c17q"](a)
+	})
 	register("c17q", func(a []Tok) []Tok {
 		w := newC13()
 		defer w.comm.Close()
@@ -222,6 +231,10 @@ func init() {
 		cl, err := sadns.NewClientDnsConnection(testDomain, &scriptedClientComm{from: addrN(1)})
 		if err != nil {
 			return []Tok{TW("setup"), TW("client")}
+		}
+		if c17qDeadlines {
+			sconn.SetWriteDeadline(time.Now().Add(time.Hour))
+			cl.SetWriteDeadline(time.Now().Add(time.Hour))
 		}
 		cr := &reader{conn: cl, waiters: func() int { return sadns.VerifClientInWaiters(cl) }}
 		sr := &reader{conn: sconn, waiters: func() int { return sadns.VerifInWaiters(sconn) }}
